@@ -19,7 +19,8 @@
       17 instance Close with databases of mixed configurations and such fetches in flight,
       18 Load itself inside a block fetch that never completes, 19 LoadFromSnapshot inside a
       fetch of the snapshot file that never completes;
-    - configurations: [Lifecycle.config] (Replicate, ":memory:" instance, MaxHistory);
+    - configurations: [Lifecycle.config] (Replicate, ":memory:" instance, MaxHistory, a Directory
+      option other than the instance's directory);
     - addresses are carried as root number + FULL path (one [seg] per path segment): databases
       that share a manifest root (/orbitdb/r/demo, /orbitdb/r/archive/demo, /orbitdb/r/demo/sub)
       are told apart by [datastore_key], as the cache manager does;
@@ -31,7 +32,7 @@ From Orbit Require Export Corr.Common Model.Lifecycle Model.Current.
 Definition sw_current : switches :=
   mkSw c18_progress_drains_current c18_close_unsubscribes_current
        c18_rejects_dotdot_current c18_destroy_inline_current c18_load_bound_current
-       c18_destroy_own_files_current.
+       c18_destroy_own_files_current c18_load_registered_current.
 
 Inductive case :=
 (* [cfgs]: the configuration of the store, or of every database of the instance.
@@ -49,9 +50,17 @@ Inductive case :=
    the same directory: was the address accepted by Open; outcome class of Drop; did the
    dropped database reopen empty with its directory gone; are the sibling's cache keys,
    directory and (after a reopen of the directory) entries all there; [cfg]: of the dropped store
-   (":memory:": nothing on disk before or after, the sibling is checked live only) *)
-| CDrop (cfg : config) (dir : list N) (droot : N) (dpath : list seg) (sroot : N) (spath : list seg)
+   (":memory:": nothing on disk before or after, the sibling is checked live only).
+   [opt]: the directory of the Directory option the dropped database was opened with ([] = none);
+   then "empty" also means that nothing of it is loaded from [opt] used as an instance directory,
+   and "intact" that the sibling's files below [opt] and a foreign file there are untouched *)
+| CDrop (cfg : config) (dir opt : list N) (droot : N) (dpath : list seg) (sroot : N) (spath : list seg)
         (opened : bool) (drop_outcome : N) (dropped_empty : bool) (sibling_intact : bool)
+(* a database opened with configuration [cfg] ([via_create]: the first time through Create), then
+   closed and reopened on the SAME instance with the same options: for every incarnation the
+   worst outcome class of Load(-1), a write and Close ([outcomes], the first incarnation first);
+   [complete]: every Load found everything acknowledged so far (in memory: every Load answered) *)
+| CCycle (cfg : config) (via_create : bool) (outcomes : list N) (complete : bool)
 (* database (croot, cpath) of an instance on [dir] was closed; then a write on the open database
    (sroot, spath) of the same instance (typically one that shares the manifest root): its
    outcome class *)
@@ -83,14 +92,22 @@ Definition check (c : case) : bool * bool :=
     (* the model: on disk everything acknowledged is found again; in memory nothing is *)
     (ok && (if durable cfg then subsetN acked present else match present with [] => true | _ => false end),
      ok && (if durable cfg then subsetN acked present else true))
-  | CDrop cfg dir droot dpath sroot spath opened outcome dropped_empty sibling_intact =>
+  | CDrop cfg dir opt droot dpath sroot spath opened outcome dropped_empty sibling_intact =>
     let accepted := address_accepted sw_current dpath in
-    let sibling_survives := negb (drop_removes sw_current cfg dir droot dpath (datastore_key dir sroot spath)) in
+    (* the sibling's cache is the instance directory's, whatever options it was opened with *)
+    let sibling_survives :=
+        negb (drop_removes sw_current cfg (destroy_dir cfg dir opt) droot dpath (datastore_key dir sroot spath)) in
+    let own_removed := cf_memory cfg || drop_removes_own sw_current cfg dir opt droot dpath in
     (Bool.eqb opened accepted &&
      (if opened
-      then Bool.eqb sibling_intact sibling_survives && dropped_empty && N.eqb outcome 0
+      then Bool.eqb sibling_intact sibling_survives && Bool.eqb dropped_empty own_removed && N.eqb outcome 0
       else sibling_intact),
      sibling_intact && (if opened then dropped_empty && N.eqb outcome 0 else true))
+  | CCycle cfg via_create outcomes complete =>
+    let usable := cycle sw_current cfg via_create (length outcomes - 1) TAbsent in
+    (listN_eqb outcomes (map (fun u : bool => if u then 0%N else 1%N) usable) &&
+     Bool.eqb complete (forallb (fun u => u) usable),
+     all_zero outcomes && complete && negb (Nat.eqb (length outcomes) 0))
   | CSibling dir croot cpath sroot spath outcome =>
     (* the model: the two share a leveldb exactly when their cache keys (root and FULL path)
        coincide; only then does closing the one close the cache under the other *)
